@@ -1,6 +1,6 @@
 //! Fixture keys and a `rpki::crypto::signer::Signer` over `ring`.
 //!
-//! 16 RSA-2048 key pairs (`fixtures/keys/rsaNN.pk8.der`, PKCS#8, and `rsaNN.pub.der`,
+//! 16 RSA-2048 key pairs (`fixtures/keys/rsaNN.key.der`, PKCS#1 RSAPrivateKey DER, and `rsaNN.pub.der`,
 //! SubjectPublicKeyInfo) and 4 ECDSA P-256 public keys (`ecN.pub.der`) were generated once
 //! with the openssl CLI and are compiled in.  No key is generated at check time.
 //!
@@ -22,7 +22,7 @@ pub const FIRST_EE_KEY: usize = 12;
 macro_rules! rsa_fixture {
     ($($n:literal),*) => {
         [ $( (
-            include_bytes!(concat!("../../fixtures/keys/rsa", $n, ".pk8.der")).as_slice(),
+            include_bytes!(concat!("../../fixtures/keys/rsa", $n, ".key.der")).as_slice(),
             include_bytes!(concat!("../../fixtures/keys/rsa", $n, ".pub.der")).as_slice(),
         ) ),* ]
     }
@@ -48,7 +48,7 @@ fn loaded() -> &'static Loaded {
     static L: OnceLock<Loaded> = OnceLock::new();
     L.get_or_init(|| Loaded {
         rsa: RSA_DER.iter().map(|(sk, pk)| (
-            ring::rsa::KeyPair::from_pkcs8(sk).expect("fixture RSA key"),
+            ring::rsa::KeyPair::from_der(sk).expect("fixture RSA key"),
             PublicKey::decode(*pk).expect("fixture RSA public key"),
         )).collect(),
         ec: EC_DER.iter().map(|pk| PublicKey::decode(*pk).expect("fixture EC public key")).collect(),
